@@ -116,11 +116,10 @@ type Exec struct {
 	Data     map[string]interface{}
 	TraceLog []string
 
-	objName  map[interface{}]uint64
-	objLast  map[uint64]uint64
-	objReads map[uint64]uint64
-	keep     []interface{}
+	objs map[interface{}]*objState
 }
+
+type objState struct{ last, reads uint64 }
 
 func mix(a, b uint64) uint64 {
 	x := a*0x9e3779b97f4a7c15 ^ (b + 0x7f4a7c15ca11ab1e + (a << 6) + (a >> 2))
@@ -179,18 +178,19 @@ func (x *Exec) event(t *Thread, kind Kind, obj interface{}) {
 
 func (x *Exec) event1(t *Thread, kind Kind, obj interface{}) {
 	h := t.h
-	name, ok := x.objName[obj]
-	if !ok {
-		name = mix(t.h, 0x0b1ec7)
-		x.objName[obj] = name
+	o := x.objs[obj]
+	if o == nil {
+		// named by its first-touch event, which is the same in all equivalent interleavings
+		o = &objState{last: mix(t.h, 0x0b1ec7)}
+		x.objs[obj] = o
 	}
-	h = mix(h, x.objLast[name])
+	h = mix(h, o.last)
 	if isRead(kind) {
-		x.objReads[name] += h // commutative accumulation of concurrent reads
+		o.reads += h // commutative accumulation of concurrent reads
 	} else {
-		h = mix(h, x.objReads[name])
-		x.objReads[name] = 0
-		x.objLast[name] = h
+		h = mix(h, o.reads)
+		o.reads = 0
+		o.last = h
 	}
 	t.h = h
 }
@@ -625,7 +625,7 @@ func Run(prefix []int, horizon int, body func()) *Exec {
 		panic("vsched.Run: nested run")
 	}
 	x := &Exec{prefix: prefix, Horizon: horizon, turn: -1, Data: map[string]interface{}{},
-		objName: map[interface{}]uint64{}, objLast: map[uint64]uint64{}, objReads: map[uint64]uint64{}}
+		objs: make(map[interface{}]*objState, 256)}
 	cur = x
 	t0 := &Thread{ID: 0, Name: "main", kind: KStart, fn: body, sid: 0x1001, h: 0x1001}
 	x.threads = append(x.threads, t0)
